@@ -781,6 +781,30 @@ func (e *Env) call(x *ECall) CV {
 			unsupp("contract: fresh() needs a reference in a two-state context")
 		}
 		return CV{k: cvBool, t: lt(e.old.alloc, a.v.ts[0])}
+	case "invoke":
+		// invoke(f): the result of running, without arguments, the closure f
+		// that the function under verification has just made.  The body is
+		// executed symbolically (its own obligations included) on a copy of
+		// the current state, and the rest of the clause is evaluated in the
+		// state it leaves - so `let v = invoke(f) in P(v)` states what the
+		// closure will produce whenever its owner calls it later, as far as
+		// that depends on the captured variables (which are not written
+		// after the closure is handed over).
+		a := arg(0)
+		if e.fr == nil || a.k != cvVal || len(a.v.fns) != 1 || a.v.fns[0].cond != "true" || a.v.fns[0].fn == nil {
+			unsupp("contract: invoke() needs a closure made by this function")
+		}
+		alt := a.v.fns[0]
+		if len(alt.fn.Params) != 0 {
+			unsupp("contract: invoke() of a closure with parameters")
+		}
+		sub := e.st.clone()
+		out, vals := e.fx.execFunction(alt.fn, nil, alt.bindings, sub, e.fr.path+"/invoke/"+alt.fn.Name(), e.fr.depth+1, false)
+		if len(vals) != 1 {
+			unsupp("contract: invoke() of a closure without exactly one result")
+		}
+		e.st = out
+		return cvOf(vals[0])
 	case "allocated":
 		// the reference denotes an object that exists in the current state
 		a := arg(0)
